@@ -71,6 +71,13 @@ EvLifeCall == /\ IsEv("LifeCall")
 EvLifeRet == /\ IsEv("LifeRet")
              /\ closed' = (closed \/ Ev.closed)
              /\ UNCHANGED <<st, dl, per, cnt, lifeCalled, mustRun, dev>>
+\* stop -> reset -> start: the service runs again; what was still pending is gone for good (it must never fire now), and
+\* timers scheduled from here on are judged like any other - in particular never before THEIR deadline
+EvRestart == /\ IsEv("Restart") /\ closed
+             /\ IF Ev.ok THEN lifeCalled' = FALSE /\ closed' = FALSE ELSE UNCHANGED <<lifeCalled, closed>>
+             /\ st' = [k \in Keys |-> IF st[k] \in {"calling", "live"} THEN "dropped" ELSE st[k]]
+             /\ mustRun' = {}
+             /\ UNCHANGED <<dl, per, cnt, dev>>
 \* scheduling on a stopped service is refused rather than lost
 EvLateCall == /\ IsEv("LateCall") /\ st' = [st EXCEPT ![Ev.k] = "calling"] /\ dl' = [dl EXCEPT ![Ev.k] = Ev.t]
               /\ UNCHANGED <<per, cnt, lifeCalled, closed, mustRun, dev>>
@@ -82,7 +89,7 @@ EvEnd == /\ IsEv("End")
          /\ \A k \in mustRun : cnt[k] = 1          \* "has run or will run exactly once"
          /\ UNCHANGED <<st, dl, per, cnt, lifeCalled, closed, mustRun, dev>>
 
-Next == EvReset \/ EvBegin \/ EvSchedCall \/ EvSched \/ EvLateCall \/ EvFire \/ DevFirePeriodicAfterCancel \/ EvCancelRet \/ EvLifeCall \/ EvLifeRet
+Next == EvRestart \/ EvReset \/ EvBegin \/ EvSchedCall \/ EvSched \/ EvLateCall \/ EvFire \/ DevFirePeriodicAfterCancel \/ EvCancelRet \/ EvLifeCall \/ EvLifeRet
         \/ EvLate \/ EvEnd
 Spec == Init /\ [][Next]_vars
 ===============================================================================
